@@ -13,7 +13,9 @@ priority * 0.9^(-mentioned); it is computed here with exact rationals - nothing 
 
 Three oracle families, all on the real interpreter (nemoguardrails/colang/v2_x/runtime/statemachine.py):
   (1) generated programs, observed from outside (outgoing events, status / head position of the flow instances), every
-      outcome of the tie-break enumerated by scripting `random.choice` inside the state machine module;
+      outcome of the tie-break enumerated by scripting `random.choice` inside the state machine module; triggers are
+      external events, internal flow events of a shared helper flow, and two-step chains (one helper per competitor,
+      ranked left to right as documented);
   (2) the same scenarios with real `random.seed(k)` tie-breaks;
   (3) a contract monitor around `_resolve_action_conflicts` itself, on real heads whose order and score chains are
       replaced by generated ones (all permutations of the head order / random score vectors)."""
